@@ -24,12 +24,14 @@ type Mutant struct {
 	Rule   string   `json:"rule,omitempty"`   // rule expected to report it (substring)
 	Note   string   `json:"note,omitempty"`
 	Edits  []Edit   `json:"edits,omitempty"` // additional edits (multi-site mutants)
+	All    bool     `json:"all,omitempty"`   // the first edit replaces every occurrence
 }
 
 type Edit struct {
 	File string `json:"file"`
 	Old  string `json:"old"`
 	New  string `json:"new"`
+	All  bool   `json:"all,omitempty"` // replace every occurrence (renamings)
 }
 
 type Corpus struct {
@@ -96,6 +98,12 @@ func applyEdit(dir string, e Edit) (bool, error) {
 		return false, err
 	}
 	s := string(b)
+	if e.All {
+		if strings.Count(s, e.Old) == 0 {
+			return false, nil
+		}
+		return true, os.WriteFile(p, []byte(strings.ReplaceAll(s, e.Old, e.New)), 0o644)
+	}
 	if strings.Count(s, e.Old) != 1 {
 		return false, nil
 	}
@@ -124,7 +132,7 @@ func RunMutant(m Mutant, prop, repo, verif string) MutantResult {
 		return res
 	}
 	defer os.RemoveAll(dir)
-	edits := append([]Edit{{m.File, m.Old, m.New}}, m.Edits...)
+	edits := append([]Edit{{File: m.File, Old: m.Old, New: m.New, All: m.All}}, m.Edits...)
 	for _, e := range edits {
 		ok, err := applyEdit(dir, e)
 		if err != nil {
